@@ -116,6 +116,46 @@ def run(chk):
                     if not okm:
                         oracle_bad.append(dict(noise=nm, op=f"gp.{op_}/" + solver.__name__, n=n, J=J, y=yv.tolist(),
                                                expected=np.atleast_1d(wnt_).tolist(), observed=np.atleast_1d(got_).tolist()))
+    # data types of the noise parameters: integer-typed and float32 variances next to a float64 matrix -- every view still is the
+    # documented matrix (nothing is cast to the dtype of the noise parameters), and a process uses it under both solvers
+    from tinygp.solvers import DirectSolver as _DS11, QuasisepSolver as _QS11
+    rng_t = np.random.default_rng(chk.seed + 11)
+    for n_t in (1, 2, 5):
+        A_t = rng_t.normal(size=(n_t, n_t))
+        v_t = rng_t.normal(size=(n_t, 2))
+        for dname, dvals in (("int64", np.arange(1, n_t + 1)), ("int32", np.arange(2, n_t + 2, dtype=np.int32)), ("float32", (0.25 + 0.5 * np.arange(n_t)).astype(np.float32))):
+            tol_t = 1e-12 if dname != "float32" else 1e-6
+            dfl = np.asarray(dvals, dtype=np.float64)
+            models_t = [("Diagonal", tn.Diagonal(diag=jnp.asarray(dvals)), np.diag(dfl))]
+            if n_t >= 2:
+                od_t = (rng_t.integers(-2, 3, size=(n_t, 1)) if dname.startswith("int") else rng_t.normal(size=(n_t, 1)).astype(np.float32) * 0.1)
+                models_t.append(("Banded", tn.Banded(diag=jnp.asarray(dvals), off_diags=jnp.asarray(od_t)), banded_oracle(dfl, np.asarray(od_t, dtype=np.float64))))
+            for nm_t, N_t, Nd_t in models_t:
+                hist[f"{nm_t}/{dname}"] = hist.get(f"{nm_t}/{dname}", 0) + 1
+                views_t = [("diagonal", lambda: np.asarray(N_t.diagonal(), float), np.diag(Nd_t)), ("noise + A", lambda: np.asarray(N_t + jnp.asarray(A_t), float), Nd_t + A_t),
+                           ("A + noise", lambda: np.asarray(jnp.asarray(A_t) + N_t, float), A_t + Nd_t), ("noise @ v", lambda: np.asarray(N_t @ jnp.asarray(v_t), float), Nd_t @ v_t),
+                           ("to_qsm().to_dense()", lambda: np.asarray(N_t.to_qsm().to_dense(), float), Nd_t)]
+                for vn_t, gv_t, wv_t in views_t:
+                    try:
+                        g_t = gv_t()
+                    except Exception as e:  # noqa: BLE001
+                        oracle_bad.append(dict(noise=nm_t, op=f"{vn_t} with {dname} parameters", n=n_t, observed=f"raised {type(e).__name__}: {str(e)[:80]}"))
+                        continue
+                    if g_t.shape != np.shape(wv_t) or float(np.max(np.abs(g_t - wv_t))) > tol_t * max(1.0, float(np.max(np.abs(wv_t)))):
+                        oracle_bad.append(dict(noise=nm_t, op=f"{vn_t} with {dname} parameters", n=n_t, expected=np.asarray(wv_t).tolist(), observed=g_t.tolist()))
+        # a process given integer variances (diag=1, an integer array): observation covariance K + N under both solvers
+        xs_t = jnp.asarray(np.linspace(0.0, 2.0, n_t))
+        k_t = qs.Matern32(jnp.asarray(1.1), jnp.asarray(0.9))
+        Kd_t = np.asarray(k_t(xs_t, xs_t))
+        for dgarg, dgd in ((1, np.ones(n_t)), (jnp.arange(1, n_t + 1), np.arange(1, n_t + 1.0))):
+            for sc_t in (_DS11, _QS11):
+                try:
+                    cv_t = np.asarray(GaussianProcess(k_t, xs_t, diag=dgarg, solver=sc_t).covariance, float)
+                except Exception as e:  # noqa: BLE001
+                    oracle_bad.append(dict(noise="Diagonal", op=f"gp.covariance/{sc_t.__name__} with integer diag", n=n_t, observed=f"raised {type(e).__name__}: {str(e)[:80]}"))
+                    continue
+                if float(np.max(np.abs(cv_t - (Kd_t + np.diag(dgd))))) > 1e-12:
+                    oracle_bad.append(dict(noise="Diagonal", op=f"gp.covariance/{sc_t.__name__} with integer diag", n=n_t, expected=(Kd_t + np.diag(dgd)).tolist(), observed=cv_t.tolist()))
     model = coq_eval("c11", IMPORTS, exprs, shard=80)
     for (case, g), mv in zip(expect, model):
         if not np.array_equal(np.asarray(mv, float), np.asarray(g, float)):
